@@ -10,7 +10,7 @@
         Every header line goes through encode('ascii','replace'): characters
         above 127 become '?' (ascii_replace).  Names of variables are written raw.
      parse_dimacs(infile) + from_dimacs_file(cls, file)             -> parse_dimacs
-        result Ok n F  = formula with update_variable_number(n) and clauses F;
+        result DOk n F  = formula with update_variable_number(n) and clauses F;
         result Err e k = ValueError raised; e tells which `raise` statement,
                          k is the line number in its message (0: raised after the loop).
         universal=false : the text is in a StringIO (lines break at "\n" only);
@@ -83,7 +83,7 @@ Inductive err :=
 | MissingSpec      (* "Missing spec line 'p cnf <n> <m>" *)
 | WrongCount.      (* "Formula contains .. clauses but .. were expected." *)
 
-Inductive result := Ok (n : Z) (F : cnf) | Err (e : err) (line : Z).
+Inductive result := DOk (n : Z) (F : cnf) | Err (e : err) (line : Z).
 
 (* `_, _, nstr, mstr = line.split(); n = int(nstr); m = int(mstr); n<0 or m<0 -> error` *)
 Definition parse_spec (s : text) : option (Z * Z) :=
@@ -128,7 +128,7 @@ Fixpoint parse_lines (spec : option (Z * Z)) (buf : list Z) (count : Z) (lineno 
     if nonempty buf then Err Incomplete 0
     else match spec with
          | None => Err MissingSpec 0
-         | Some (n, m) => if m =? count then Ok n [] else Err WrongCount 0
+         | Some (n, m) => if m =? count then DOk n [] else Err WrongCount 0
          end
   | l :: rest =>
     let k := lineno + 1 in
@@ -155,7 +155,7 @@ Fixpoint parse_lines (spec : option (Z * Z)) (buf : list Z) (count : Z) (lineno 
             if forallb (lit_ok n) zs then
               let '(cs, buf') := split0 (buf ++ zs) in
               match parse_lines spec buf' (count + len cs) k rest with
-              | Ok n' F => Ok n' (cs ++ F)
+              | DOk n' F => DOk n' (cs ++ F)
               | e => e
               end
             else Err BadLiteral k
